@@ -491,6 +491,35 @@ def check(ctx, rep):
                 problems.append("a GET request never sends a body")
             rep.add("R04c", f"{h.qualname}: HEAD = GET headers, no body", not problems, ctx.where(h), "; ".join(problems),
                     key=f"R04c|{h.qualname}|" + ";".join(p.split(":")[0] for p in problems))
+        # error replies: the same holds for what filenotfound() sends
+        for P in prog.subclasses(http):
+            fnf = prog.resolve_method(P, "filenotfound")
+            if fnf is None or (fnf.cls is not P and P is not http):
+                continue
+
+            def writes(method):
+                w = Walker(prog, ctx.resolver, assumptions={"self.requestparts[0]": Const(method)}, sticky={"self.requestparts[0]"})
+                out = []
+                for p in w.run(fnf, P):
+                    hdr, body = [], []
+                    for e in p.calls():
+                        n = e.node
+                        if isinstance(n.func, ast.Attribute) and n.func.attr == "write" and (dotted(n.func.value) or "").endswith("wfile") and n.args:
+                            a = n.args[0]
+                            text = a.value.decode("latin-1") if isinstance(a, ast.Constant) and isinstance(a.value, bytes) else None
+                            (hdr if text is not None and text.startswith(HEADER_PREFIXES) and not body else body).append(norm(n)[:60])
+                    out.append((tuple(hdr), tuple(body)))
+                return out
+            hd, gt = writes("HEAD"), writes("GET")
+            problems = []
+            if any(b for _, b in hd):
+                problems.append(f"the error reply to a HEAD request carries a body: {[b for _, b in hd if b][0][0]}")
+            if {h_ for h_, _ in hd} != {h_ for h_, _ in gt}:
+                problems.append("HEAD and GET error replies do not send the same header lines")
+            if not any(b for _, b in gt):
+                problems.append("the error reply to a GET request has no body")
+            rep.add("R04c", f"{fnf.qualname}: error reply, HEAD = GET headers, no body", not problems, ctx.where(fnf), "; ".join(problems),
+                    key=f"R04c|{fnf.qualname}")
 
     # ------------------------------------------------------------------ R04e
     wap = ctx.cls("protocols.wap.WAPProtocol")
